@@ -111,10 +111,11 @@ def run(ctx):
         if f.crate != "ast_grep":
             continue
         for c in f.calls:
-            if c.bb in f.live_blocks and c.name.startswith("sort") and c.args and c.args[0][0] != "k" and "print::Diff<" in f.locals[c.args[0][1][0]]:
+            if c.bb in f.live_blocks and c.name.startswith("sort") and c.args and c.args[0][0] != "k" and (
+                    "print::Diff<" in f.locals[c.args[0][1][0]] or "node_match::NodeMatch<" in f.locals[c.args[0][1][0]]):
                 resort.append(c)
     ctx.ob("R1", "the per-file list of Diffs is not re-sorted on its way to the accept loop", not resort,
-           "no sort over a collection of print::Diff in the cli" if not resort else
+           "no sort over a collection of print::Diff / NodeMatch in the cli (the scan's document order reaches the accept loop)" if not resort else
            "%s sorts the Diff list (%s): edits that start at the same byte change places relative to the order --json announces them in, and the accept loop keeps the first" % (resort[0].fn.id, resort[0].name),
            where=resort[0].fn.loc(resort[0].line) if resort else None)
     splice_purity(ctx, "R1")
@@ -293,6 +294,36 @@ def run(ctx):
         else:
             ctx.ob("R2", "file writer %s" % top, True, "scaffolding/snapshot/completions writer (not user sources)", where=c.fn.loc(c.line), nontrivial=False)
     ctx.floor("R2", "file writers in cli", len(writers), 3)
+    # what is written is the payload's own path — no temporary sibling, no rename/remove/copy next to user sources (a fixed temporary
+    # name derived from the file's stem overwrites and then removes an unrelated `<stem>.tmp`; a rename replaces symlinks, splits hard
+    # links and drops the executable bit)
+    ra2 = prog.find_fns(r"^ast_grep::print::interactive_print::InteractivePrinter::<P>::rewrite_action$")
+    for f in ra2:
+        fi = prog.inlined(f)
+        for c in fi.calls:
+            if c.best == "std::fs::write" and c.bb in fi.live_blocks:
+                names = set()
+                seen = set()
+                def walk(op, depth=0):
+                    if op[0] == "k" or depth > 10:
+                        return
+                    for o in fi.trace_operand(op):
+                        k = (o.kind, o.ref if isinstance(o.ref, (int, str)) else id(o.ref))
+                        if k in seen:
+                            continue
+                        seen.add(k)
+                        if o.kind == "call":
+                            names.add(o.ref.name)
+                            if o.ref.args:
+                                walk(o.ref.args[0], depth + 1)
+                walk(c.args[0])
+                badn = sorted(n for n in names if n in ("with_extension", "with_file_name", "join", "push", "set_extension", "set_file_name", "temp_dir", "format", "parent"))
+                ctx.ob("R2", "rewrite_action writes the payload's own path", not badn, "fs::write(path, ..) with the Diffs' path" if not badn else
+                       "the path written is derived by %s: a file that is not the scanned file is created/overwritten" % badn, where=f.loc(c.line))
+    others = [c for f in prog.fns.values() if f.crate == "ast_grep" and not allowed_other.search(f.root or f.id) for c in f.calls
+              if c.bb in f.live_blocks and re.search(r"^std::fs::(rename|remove_file|remove_dir_all|remove_dir|copy|hard_link|set_permissions)$|^std::os::unix::fs::symlink$", c.best)]
+    ctx.ob("R2", "no rename/remove/copy of user files", not others, "none in the scanning/rewriting code" if not others else
+           "%s calls %s: files that no announced edit names are created, replaced or removed" % (others[0].fn.id, others[0].best), where=others[0].fn.loc(others[0].line) if others else None)
     # payload creation inside loops of produce_item
     PAY = {"print_diffs", "print_rule_diffs"}
     n = 0
